@@ -168,6 +168,10 @@ class SteadyDetonationReactionZone(ExactSolver):
 
         xsolution = dict()
 
+        # the position field comes first, as in every ExactSolution
+
+        xsolution['position'] = xvec
+
         varnames = ['pressure','velocity','density','sound_speed',
                         'reaction_progress','position_relative']
 
@@ -212,12 +216,6 @@ class SteadyDetonationReactionZone(ExactSolver):
         for var in varnames:
             interpfcn = interp1d(tsolution['position'][::-1],tsolution[var][::-1])
             xsolution[var][jmask] = interpfcn(xvec[jmask])
-
-        #
-        # assign xvec into the solution object
-        #
-
-        xsolution['position'] = xvec
 
         return ExactSolution(xsolution.values(),
                              names=list(xsolution.keys()))
